@@ -80,7 +80,9 @@ MANIFEST = dict(
          "entry size; arc Count; the header theorem carried to the text / arc / aset / asset entry points); every accepted value re-serializes "
          "without panic. Models tied to /repo on every run: outcome category and parsed value compared on random bytes and structure-aware "
          "mutations/truncations of valid files in debug (checked) and release (wrapping) builds; a counting allocator measures the largest single "
-         "request of every parser kind; the runner detects aborts and hangs; a failing call of every parser family precedes every case (state "
+         "request of every parser kind; the runner detects aborts and hangs (a case without output for 240 s, thorough 900 s, is killed and reported "
+         "as TIMEOUT: non-termination is a verdict, not a hung check); well-formed packs with more than 4096 entries and data regions cut inside "
+         "the last record with consistent headers are part of the streams; a failing call of every parser family precedes every case (state "
          "left behind by a rejected input must not leak).",
     note=TB + "Modelled, not verified: Cursor/Read semantics, Vec/HashMap/IndexMap growth (A-std); real allocator behaviour, stack depth "
               "and time are observed by the harness only. A-usize: usize sums that the code performs without a width check (text_start + offset + "
